@@ -1,11 +1,13 @@
 (* Non-vacuity and boundary examples for the AES-CTR theorems (all by vm_compute on the models). *)
-From Coq Require Import NArith List Arith Bool Lia.
+From Coq Require Import NArith ZArith List Arith Bool Lia.
 From LCP Require Import Base.CheckedMem.
 From LCP Require Import Gen.Repo_aes.
 From LCP Require Import Crypto.AesSpec.
 From LCP Require Import Crypto.AesProofs.
 From LCP Require Import Accel.AesNi.
+From LCP Require Import Crypto.AesCtrArith.
 From LCP Require Import Crypto.AesCtrModel.
+From LCP Require Import Crypto.AesCtrRef.
 From LCP Require Import Crypto.AesRepo.
 From LCP Require Import Crypto.AesCtrProofs.
 Import ListNotations.
@@ -114,3 +116,40 @@ Example ctr_wraps_beyond_bound :
   | _ => false
   end = true.
 Proof. vm_compute. reflexivity. Qed.
+
+(* -------- the C integer semantics the regenerated bookkeeping is evaluated with (Crypto/AesCtrArith.v):
+   with *buflen = 2^32 + 16 + 5,  *buflen & ~15U  is 16 (15U is a 32-bit unsigned int, ~ works in 32 bits,
+   the result is ZERO-extended),  *buflen & ~(size_t)15  and  *buflen & ~15  (an int, -16, SIGN-extended)
+   are 2^32 + 16 *)
+Definition len_above_4g : env := [(V_BUFLEN, (U64, Some (4294967296 + 16 + 5)%Z))].
+Example mask_unsigned_int_is_truncated :
+  eval len_above_4g (EBin OAnd (EVar V_BUFLEN) (EUn UNot (ELit U32 15))) = (U64, 16%Z, true).
+Proof. vm_compute. reflexivity. Qed.
+Example mask_size_t_is_not :
+  eval len_above_4g (EBin OAnd (EVar V_BUFLEN) (EUn UNot (ECast U64 (ELit S32 15)))) = (U64, (4294967296 + 16)%Z, true).
+Proof. vm_compute. reflexivity. Qed.
+Example mask_int_is_sign_extended :
+  eval len_above_4g (EBin OAnd (EVar V_BUFLEN) (EUn UNot (ELit S32 15))) = (U64, (4294967296 + 16)%Z, true).
+Proof. vm_compute. reflexivity. Qed.
+(* an 8-bit object is promoted to int before ++ and wraps when stored back; signed overflow and a
+   form the translator does not know are flagged undefined *)
+Example uint8_increment_wraps :
+  match run [(V_PBLKB, (U8, Some 255%Z))] [SAssign V_PBLKB (Some OAdd) (ELit S32 1)] with
+  | (e, ok) => (get e V_PBLKB, ok)
+  end = ((U8, 0%Z, true), true).
+Proof. vm_compute. reflexivity. Qed.
+Example signed_overflow_is_undefined :
+  snd (eval [] (EBin OAdd (ELit S32 2147483647) (ELit S32 1))) = false /\ snd (eval [] EUnknown) = false.
+Proof. split; vm_compute; reflexivity. Qed.
+
+(* the hypotheses of stream_cfg_eq_reference / wholeblocks_aesni_eq_reference hold for a fresh stream
+   and a 40-byte call, and the two sides are what evaluation gives *)
+Example stream_cfg_eq_reference_instance :
+  bytectr (init2 15 255 7 junk) + N.of_nat (length (N_seq 0 40)) < two64 /\
+  length (pblk (init2 15 255 7 junk)) = 16%nat /\
+  match stream_cfg E_toy true (init2 15 255 7 junk) (N_seq 0 40),
+        Ref.stream_cfg E_toy true (init2 15 255 7 junk) (N_seq 0 40) with
+  | Ok (s1, o1), Ok (s2, o2) => list_eqb o1 o2 && (bytectr s1 =? 40) && (bytectr s2 =? 40)
+  | _, _ => false
+  end = true.
+Proof. split; [|split]; vm_compute; reflexivity. Qed.
